@@ -924,3 +924,11 @@ def run(ck):
                     if not any((H.callee_decl(x) or '') == 'std::process::exit' for x in H.calls_in(arm['body'])):
                         ok = False
         ck.ob('R4.4', 'every-err-exits-nonzero', ok, B.loc(m) if m else '', 'each Err(..) arm in main calls process::exit(1)')
+
+    # ---- R4.9 "ill-typed": the acceptance rules of calls and returns (shared with C05) -----------------------------------------------------------
+    import core as _core9
+    import rules.c05 as c05
+    ck.rule('R4.9', 'a call or a return the type checker must refuse is refused: argument count and types, result types (shared with C05)')
+    s5 = _core9.Shared(ck, 'R4.9', lambda r, k: r in ('R5.6', 'R5.7'), 'C05:', ' [what the checker accepts gets no diagnostic: the command exits 0 and writes both files]')
+    c05.run(s5)
+    ck.floor('R4.9', s5.count, 10, 'shared C05 R5.6 / R5.7 obligations')
